@@ -53,7 +53,11 @@ Fixpoint report_roll (s : RollLTS.rst) (es : list RollLTS.rev) (i : nat) : list 
     | None => ["stuck:" ++ show_N (N.of_nat i)]
     | Some s' =>
       let here := match e with
-                  | RollLTS.WReturn => ["R 99 ok"]
+                  | RollLTS.WReturn => match RollLTS.wstate s with
+                                       | RollLTS.WDone (Some true) => ["R 99 true"]
+                                       | RollLTS.WDone (Some false) => ["R 99 false"]
+                                       | _ => ["R 99 ok"]
+                                       end
                   | RollLTS.GReturn t => match RollLTS.rreaders s t with
                                          | RollLTS.GDone _ v _ => ["R " ++ show_N (N.of_nat t) ++ " " ++ show_ov v]
                                          | _ => []
